@@ -78,6 +78,35 @@ int main(int argc, char** argv)
                         if (!ev_win && strong_v < 0) rec.violation("evaluator:negative-for-pawn-side", exj("endgame::score", strong_v));
                         if (n % 50021 == 1) rec.sample(vh::J().str("fen", cur).str("truth", truth ? "win" : "draw").num("engine_strong_side_value", strong_v).done());
                         rec.nontrivial((uint64_t(pawn_color) << 40) | T.idx(stm, wk, wp, bk));
+                        // the same position evaluated right AFTER a different ending with the same strong side (queen or rook in
+                        // place of the pawn; what a search does all the time around a promotion): the answer must not depend on it
+                        if ((n % 5) == 0)
+                        {
+                            orc::Board pr = b;
+                            int psq = pawn_color == 0 ? wp : (wp ^ 56);
+                            int strong_c = pawn_color == 0 ? orc::WHITE : orc::BLACK;
+                            pr.sq[psq] = orc::make_pc(strong_c, (n % 10) == 0 ? orc::QUEEN : orc::ROOK);
+                            if (pr.sq[psq] != orc::EMPTY && pr.retro_legal())
+                            {
+                                std::string pf = pr.fen();
+                                vh::set_case(pf.c_str(), "kpk-primer");
+                                Position R(pf);
+                                (void)endgame::score(R);
+                                (void)scorer.score(R);
+                                vh::set_case(cur.c_str(), "kpk-after-other-endgame");
+                                Value v2 = endgame::score(P);
+                                Value s2 = P.color() == strong ? v2 : -v2;
+                                Value sv2 = scorer.score(P);
+                                Value ss2 = P.color() == strong ? sv2 : -sv2;
+                                rec.evaluations += 2;
+                                rec.count("kpk-evaluated-after-another-endgame");
+                                if ((s2 >= VALUE_KNOWN_WIN) != truth || (ss2 >= VALUE_KNOWN_WIN) != truth)
+                                    rec.violation(std::string("after-other-endgame:") + (truth ? "engine-draw-truth-win" : "engine-win-truth-draw"),
+                                                  vh::J().str("evaluated_before", pf).str("kpk_fen", cur).num("endgame_score", s2).num("static_eval", ss2).str("truth", truth ? "win" : "draw").done());
+                                else if (s2 != strong_v || ss2 != strong_sv)
+                                    rec.count("observation:kpk-value-differs-after-another-endgame(same class; C14 territory)");
+                            }
+                        }
                         // the same position REACHED BY A CAPTURE from a four-man ending (what a game produces; piece lists,
                         // counts and keys then come from do_move, not from the FEN parser)
                         if ((n % 23) == 0)
@@ -106,6 +135,7 @@ int main(int argc, char** argv)
                                     std::string f0s = p0.fen();
                                     vh::set_case(f0s.c_str(), "kpk-after-capture");
                                     Position Q(f0s);
+                                    (void)scorer.score(Q);  // a search evaluates the parent before the child
                                     Q.do_move(glue::to_engine(cap, p0));
                                     Value qv = scorer.score(Q);
                                     Value q_strong = Q.color() == strong ? qv : -qv;
